@@ -21,3 +21,5 @@ open IrVerif.Serde
 #print axioms C02_model
 #print axioms C02_model_norm
 #print axioms C02_norm_idempotent
+#print axioms C02_annotations
+#print axioms C02_no_loss_names
